@@ -2,6 +2,8 @@ package main
 
 import (
 	"flag"
+	"io"
+	"log"
 	"fmt"
 	"os"
 	"runtime"
@@ -20,6 +22,7 @@ func main() {
 	replay := flag.String("replay", "", "replay file")
 	flag.Bool("search", false, "search mode: a proof or correspondence broke, look harder for a failing input")
 	flag.Parse()
+	log.SetOutput(io.Discard)
 	if flag.NArg() != 1 {
 		fmt.Fprintln(os.Stderr, "usage: harness [flags] <property>")
 		os.Exit(2)
@@ -65,7 +68,7 @@ func main() {
 }
 
 func init() {
-	for _, p := range []string{"C04", "C05", "C12", "C13"} {
+	for _, p := range []string{"C04", "C05", "C06", "C12", "C13"} {
 		props[p] = runAgg
 	}
 }
